@@ -45,7 +45,7 @@ def build_code(shape):
 
 
 def tree_instances(tier, fam='tree', safety=False):
-    maxn = 4 if tier == 'quick' else 7
+    maxn = 5 if tier == 'quick' else 7      # 5 nodes: smallest pre-state in which a double rotation moves non-empty subtrees
     L = []
     for n in range(0, maxn + 1):
         for si, (shape, h) in enumerate(shapes(n)):
@@ -109,6 +109,5 @@ def ladder_instances(tier, fam='ladder', safety=False):
 def instances(build, tier, seed):
     L = tree_instances(tier) + ladder_instances(tier)
     META['bounds']['ladder'] = 'every AVL shape with <= %d case labels x 4 promoted controlling types; constants of symbolic type/value, symbolic run-time value' % (4 if tier == 'quick' else 7)
-    META['bounds']['tree'] = 'one insertion into every AVL shape with <= %d nodes (%d shapes), keys and new key symbolic 64-bit' % (
-        4 if tier == 'quick' else 7, len(L))
+    META['bounds']['tree'] = 'one insertion into every AVL shape with <= %d nodes, keys and new key symbolic 64-bit' % (5 if tier == 'quick' else 7)
     return L
